@@ -32,6 +32,11 @@ func c05Types() []string {
 	for _, t := range []string{"{a:int64}", "n=int64", "n=string", "(int64,string)", "(string,int64)", "[int64]", "m=int64"} {
 		out = append(out, "{f:"+t+"}", "["+t+"]", "|{string:"+t+"}|", "("+t+",bool)", "(bool,"+t+")", "error("+t+")", "o="+t)
 	}
+	// a name bound, rebound to another type inside every kind of nested type, then used again
+	// with its first binding (the serialised form must keep the bindings apart)
+	for _, w := range []string{"{z:n=string}", "[n=string]", "|[n=string]|", "|{n=string:int64}|", "|{int64:n=string}|", "(n=string,bool)", "error(n=string)", "o=n=string"} {
+		out = append(out, "{a:n=int64,b:"+w+",c:n=int64}")
+	}
 	// a named type used twice, second time by reference; same name rebound later in the history
 	out = append(out, "{x:n=int64,y:n}", "{x:n=string,y:n}", "[(n=int64,string)]", "{x:m=int64,y:n=string}")
 	return out
@@ -239,7 +244,7 @@ func TestC05(t *testing.T) {
 		run.Eval(fmt.Sprint("union", p))
 	})
 	run.Set("exhaustive", true)
-	run.Set("rule", "types: 80 types to depth 2 over every kind with two field names, two type names each bound to two inner types, references to an earlier binding, unions and enums in different member orders; histories: every single creation, every ordered pair of types x every pair of creation routes {zson.ParseType, TranslateType from a foreign context, LookupByValue of a foreign type value (whose buffer the caller then overwrites), decoding from a ZNG stream}, and triples over a 10-type core (rebinding of one name, union orders) x route triples (quick: every fifth). After every step: the type denotes the requested structure; structurally equal <=> same object <=> same id for all pairs created so far; the type value equals that of the same structure built alone in a fresh context and never changes afterwards; translation to another context and back returns the same object; decoding the type value elsewhere is structurally equal; all 24 member orders of a 4-member union give one object")
+	run.Set("rule", "types: 88 types to depth 2 over every kind with two field names, two type names each bound to two inner types, references to an earlier binding, a name rebound inside each kind of nested type and then used again with its first binding, unions and enums in different member orders; histories: every single creation, every ordered pair of types x every pair of creation routes {zson.ParseType, TranslateType from a foreign context, LookupByValue of a foreign type value (whose buffer the caller then overwrites), decoding from a ZNG stream}, and triples over a 10-type core (rebinding of one name, union orders) x route triples (quick: every fifth). After every step: the type denotes the requested structure; structurally equal <=> same object <=> same id for all pairs created so far; the type value equals that of the same structure built alone in a fresh context and never changes afterwards; translation to another context and back returns the same object; decoding the type value elsewhere is structurally equal; all 24 member orders of a 4-member union give one object")
 	if c05Concurrent != nil {
 		c05Concurrent(run)
 	} else {
